@@ -117,6 +117,13 @@ RAW = [
     ("def h(x, scale=2): return x * scale\n", "h(e.a)"),
     ("def h(x, scale=2): return x * scale\n", "h(e.a, scale=e.b)"),
     ("def h(x, *, scale=2): return x * scale\n", "h(e.a)"),
+    # a BOUND METHOD captured under a plain name: its function has one parameter more than the call has arguments
+    ("class K:\n    off = 5\n    def m(self, x): return x + 1\nh = K().m\n", "h(e.a)"),
+    ("class K:\n    def __init__(self): self.off = 5\n    def m(self, x): return x + self.off\nh = K().m\n", "h(e.a)"),
+    ("class K:\n    def m(self, x): return x * 2\nh = K().m\n", "e.jets.Select(lambda j: h(j.pt))"),
+    ("class K:\n    @classmethod\n    def m(cls, x): return x * 2\nh = K.m\n", "h(e.a)"),
+    ("class K:\n    @staticmethod\n    def m(x): return x * 2\nh = K.m\n", "h(e.a)"),
+    ("class K:\n    def m(self, x): return x * 2\nh = K().m\ndef g(v): return h(v) + 1\n", "g(e.a)"),
 ]
 _N = [0]
 
